@@ -35,5 +35,13 @@ def keysToTuples (keys : List Monomial) : List String × List (List Nat) :=
   let syms := symbolsOf keys
   (syms, keys.map (keyTuple syms))
 
+/-! ### `_subspaces_from_indices`: the states of each block, in their order of appearance -/
+
+/-- the states (positions) that carry label `b` -/
+def blockStates (labels : List Nat) (b : Nat) : List Nat := (List.range labels.length).filter fun a => labels.getD a 0 == b
+
+/-- one list of states per block `0 … max label` (an unused label gives an empty block) -/
+def subspaces (labels : List Nat) : List (List Nat) := (List.range (labels.foldl max 0 + 1)).map (blockStates labels)
+
 end Formats
 end Pyma
